@@ -260,3 +260,4 @@ package parser
 //@   assert after call option.UnescapeString#*: [string-unescaping-only-for-string-literals] ch == 39 || (!s.ansiQuotes && ch == 34)
 //@   assert after call option.UnescapeIdentifier#*: [identifier-unescaping-only-for-quoted-identifiers] ch == 96 || (s.ansiQuotes && ch == 34) || ch == VariableSign
 //@   modifies s, fresh, key:E:string#0
+
